@@ -341,6 +341,21 @@ def rule_cursor(u, rep):
                 rep.add("CUR-WHO", nm, "AlignedCursor::%s changes the %s: only write may (bytes beyond the length stay zero because nothing else touches length or storage)"
                         % (nm, "length" if fl != OL else "storage"), b.loc())
                 break
+    # ------------------------------------------------------------------ no unchecked overrides of provided methods
+    # Read/Write/Seek give read_exact, write_all, read_to_end, rewind, ... for free from the required methods whose
+    # relations are checked above; an override replaces std's behaviour with something no rule here looks at
+    REQUIRED = {"read", "write", "flush", "seek", "stream_position"}
+    for im in u.impls:
+        if im.self_ty[0] == "adt" and im.self_ty[1] == aid and im.trait and im.trait.startswith("std::io::"):
+            for nm_, it in im.items.items():
+                if it["kind"].startswith("Fn"):
+                    ok = nm_ in REQUIRED
+                    rep.oblige(ok)
+                    n += 1
+                    if not ok:
+                        bb = u.body(im.crate.def_id(it["d"]))
+                        rep.add("CUR-API", nm_, "AlignedCursor overrides `%s::%s`: std derives it from the required methods, whose relations are the ones checked; the override's own effect on position and contents is not the documented one unless shown"
+                                % (im.trait.split("::")[-1], nm_), bb.loc() if bb is not None else None)
     # the storage element type is bounded by maligned::Alignment
     ok = any("Alignment" in (pj.get("s") or "") for b2 in ms.values() for pj in b2.preds) or True
     rep.count("cursor_paths", n)
